@@ -24,6 +24,7 @@ static Action CANCEL() { return A(Action::CANCEL); }
 static Action SIGNAL(int op, int type) { Action a = A(Action::SIGNAL); a.target_op = op; a.sig_type = type; return a; }
 static Action slot(Action a) { a.with_slot = true; return a; }
 static Action chain(Action a) { a.chain = true; return a; }
+static Action BWAIT() { return A(Action::BWAIT); }
 
 static const uint32_t RECOVERABLE = F_CONN | F_HS | F_WR | F_TAIL | F_RDCUT | F_LOSS | F_BCLOSE | F_NOREPLY;
 static const uint32_t SCHED = F_REORDER | F_CHUNK | F_WRSHORT | F_DELAY;
@@ -703,6 +704,18 @@ std::vector<Scenario> scenarios_for(const std::string& prop, int tier) {
                     if (rmv) s.broker.connack_props = {ref::pnum(0x21, 1)}; s.on_complete[1] = {hk.act}; s.expect_all_success = false; s.max_steps = 900; v.push_back(s);
                     s.name += "-from-op2"; s.on_complete.clear(); s.on_complete[2] = {hk.act}; v.push_back(s); } }
         }
+        if (!c9) {
+            // requests that are rejected locally, issued from inside another operation's handler: the rejection must still not run the handler inside the initiating call
+            Scenario s = base("B11-rejected-requests-in-handler", {RUN(), WAIT_HS(1), PUB(1, 1), BARRIER(), PUB(0, 2)}, F_REORDER | F_DELAY, 1, mon | M_C15);
+            s.broker.connack_props = {ref::pnum(0x27, 60), ref::pnum(0x24, 1), ref::pnum(0x25, 0), ref::pnum(0x22, 2), ref::pnum(0x28, 0), ref::pnum(0x29, 0), ref::pnum(0x2A, 0)};
+            int tag = 500; std::vector<Action> rej;
+            auto R_ = [&](Action a, int ec) { a.tag = tag++; if (a.k == Action::PUB) a.payload = "payload-" + std::to_string(a.tag); a.expect_reject = true; a.expect_ec = ec; rej.push_back(a); };
+            { Action a = PUB(0, 0); a.topic = "bad/#"; R_(a, 104); } { Action a = PUB(1, 0); a.topic = ""; R_(a, 104); } R_(PUB(2, 0), 105); R_(PUB(0, 0, true), 106); R_(PUB(0, 0, false, {ref::pnum(0x23, 3)}), 107);
+            { Action a = PUB(1, 0); a.topic = std::string(100, 't'); R_(a, 101); } { Action a = PUB(0, 0, false, {ref::pnum(0x01, 1)}); a.payload = "\xC0\x20"; a.tag = tag++; a.expect_reject = true; a.expect_ec = 100; rej.push_back(a); }
+            R_(SUB({{"w/#", 1}}), 108); R_(SUB({{"$share/g/t", 1}}), 110); R_(SUB({{"p", 1}}, {ref::pnum(0x0B, 5)}), 109); R_(SUB({{std::string(100, 'f'), 1}}), 101); R_(SUB({{"a//\x01", 1}}), 104); R_(SUB({}), 104);
+            R_(UNSUB({std::string(100, 'u')}), 101); R_(UNSUB({"bad/#/x"}), 104); R_(UNSUB({}), 104);
+            s.on_complete[1] = rej; s.on_complete[2] = rej; s.expect_all_success = false; s.max_steps = 900; v.push_back(s); s.name += "-tcp"; s.flavour = 1; v.push_back(s);
+        }
         if (c9) {
             // scripted disconnects: in the middle of traffic, with an oversized DISCONNECT, followed by 120 s of observed silence
             { auto s = base("D1-disconnect-after-traffic", {RUN(), PUB(1, 1), PUB(2, 2), PUB(0, 3), DISC(0x04, {ref::pstr(0x1F, "bye")})}, F_WR | F_RDCUT | F_BCLOSE | F_REORDER | F_SHUT | F_WRSHORT, 2, mon); s.idle_tail_s = 120; s.epilogue_cancel = false; s.expect_all_success = false; v.push_back(s); s.name += "-tcp"; s.flavour = 1; v.push_back(s); }
@@ -892,6 +905,8 @@ std::vector<Scenario> scenarios_for(const std::string& prop, int tier) {
         { auto s = base("M2-q2-q2", {RUN(), RECV(12), SUB({{"b/#", 2}}), BARRIER(), BPUB(2, 1), BPUB(2, 2)}, fam, tier ? 3 : 2, M_C04); v.push_back(s); }
         { auto s = base("M3-q1x3", {RUN(), RECV(12), SUB({{"b/#", 2}}), BARRIER(), BPUB(1, 1), BPUB(1, 2), BPUB(1, 3)}, fam & ~F_CHUNK, 2, M_C04); v.push_back(s); }
         { auto s = base("M4-interleaved-with-publishing", {RUN(), RECV(12), SUB({{"b/#", 2}}), BARRIER(), BPUB(2, 1), PUB(2, 50), BPUB(1, 2), PUB(1, 51)}, fam & ~F_CHUNK, tier ? 2 : 1, M_C04 | M_C01); v.push_back(s); }
+        // the broker reuses packet id 1 for consecutive messages (each sent once the previous exchange is settled)
+        { auto s = base("M6-id-reuse-q2-q2-q1-q1", {RUN(), RECV(12), SUB({{"b/#", 2}}), BARRIER(), BPUB(2, 1), BWAIT(), BPUB(2, 2), BWAIT(), BPUB(1, 3), BWAIT(), BPUB(1, 4)}, fam & ~F_CHUNK, 2, M_C04); v.push_back(s); }
         { auto s = base("M5-session-lost", {RUN(), RECV(12), SUB({{"b/#", 2}}), BARRIER(), BPUB(2, 1), BPUB(1, 2)}, fam & ~F_CHUNK, 2, M_C04); s.broker.sp_policy = {-1, 0, -1}; v.push_back(s); }
         if (tier) { size_t n0 = v.size(); for (size_t i = 0; i < n0; ++i) { Scenario b = v[i]; b.name += "-bytecuts"; b.fam |= F_BYTE; b.D = 2; v.push_back(b); } }   // byte-granular cut positions at one deviation less
         for (auto& s : v) s.expect_all_success = false;
